@@ -2,6 +2,7 @@ package main
 
 import (
 	"fmt"
+	"go/token"
 	"regexp"
 	"sort"
 	"strconv"
@@ -257,6 +258,12 @@ func checkC19(p *Prog, l *Ledger) {
 	l.AsOnly(map[string]string{"C06/S2-guarded-eval": "C19/S1-ends-after-error/guarded-eval", "C06/S3-bounded-after-error": "C19/S1-ends-after-error/loops", "C06/S2-effect-after-error": "C19/S1-ends-after-error/effects",
 		// status 70 iff a runtime error: an invalid operation that is not detected ends with status 0 (C06's detection rules)
 		"C06/S0-fault-detected": "C19/S2-status-70/fault-detected"}, func() { checkC06(p, l) })
+	// status 65 iff a syntax error: the parser's reporter writes its diagnostic and raises the flag on its only path (the
+	// `error` primitive of C08/S0) — a reporter that stays silent for some position lets a rejected text run
+	l.AsOnlyWhere(map[string]string{"C08/S0-cursor-primitives": "C19/S2-status-65/reported"}, func(o *Obligation) bool { return o.Construct == "Parser.error" }, func() { checkParserPrimitives(p, l, "C08/S0-cursor-primitives") })
+	// stdout and stderr carry the program's text and the diagnostics as they are: nothing the program supplies is used
+	// as a format string
+	checkFormatStrings(p, l, "C19/S3-streams/format-strings")
 	// ---- S2
 	checkFlagWriters(p, l, "C19/S2-flag-ownership")
 	checkFlagCallers(p, l, "C19/S2-flag-ownership")
@@ -629,4 +636,57 @@ func onceOnly(p *Prog, f *ssa.Function, call ssa.Instruction, mainFn *ssa.Functi
 		return false
 	}
 	return true
+}
+
+// checkFormatStrings: every call of a formatting output function (fmt.Printf, fmt.Fprintf) reachable from main has a
+// constant format — a prompt, a value's text or a diagnostic used *as* the format has its % sequences interpreted
+// ("100%" becomes "100%!(NOVERB)") and swallows the arguments that follow.
+func checkFormatStrings(p *Prog, l *Ledger, rule string) {
+	n := 0
+	for _, fn := range p.ModuleFuncs() {
+		instrsOf(fn, func(in ssa.Instruction) {
+			c, ok := in.(ssa.CallInstruction)
+			if !ok {
+				return
+			}
+			sc := c.Common().StaticCallee()
+			if sc == nil {
+				return
+			}
+			fi := -1
+			switch extName(sc) {
+			case "fmt.Printf":
+				fi = 0
+			case "fmt.Fprintf":
+				fi = 1
+			}
+			if fi < 0 || fi >= len(c.Common().Args) {
+				return
+			}
+			n++
+			key := fmt.Sprintf("%s#%s", p.FuncKey(fn), extName(sc))
+			if constantText(c.Common().Args[fi], 0) {
+				l.Discharge(rule, key, p.InstrPos(in), "constant format", false)
+			} else {
+				l.Violate(rule, key, p.InstrPos(in), "the format of "+extName(sc)+" is "+describe(c.Common().Args[fi])+", not a constant: text supplied by the program (a prompt, a value, a message quoting source text) has its % sequences interpreted and the output is no longer that text")
+			}
+		})
+	}
+	if n == 0 {
+		l.Discharge(rule, "no-formatting-output", "", "no fmt.Printf/Fprintf in the module", false)
+	}
+}
+
+// constantText: a string constant, or a concatenation of string constants.
+func constantText(v ssa.Value, depth int) bool {
+	if depth > 6 {
+		return false
+	}
+	switch x := v.(type) {
+	case *ssa.Const:
+		return true
+	case *ssa.BinOp:
+		return x.Op == token.ADD && constantText(x.X, depth+1) && constantText(x.Y, depth+1)
+	}
+	return false
 }
